@@ -88,9 +88,8 @@ def run(chk):
                                 "model": res["m1"]["status"], "model_len": res["m1"].get("disk_len")})
         return (c.cls, ist)
 
-    if ctx.oracle or True:
-        rb.run_all(ctx, small, judge, chunk=48)
-        rb.run_all(ctx, big, judge, chunk=2, workers=12)
+    rb.run_all(ctx, small, judge, chunk=48)
+    rb.run_all(ctx, big, judge, chunk=2, workers=12)
 
     if small:
         s = small[len(small) // 2]
